@@ -380,6 +380,7 @@ class Interp:
         self.steps = 0
         self.inlined = []
         self.opaque_calls = []
+        self.assumed_asserts = []
 
     # ------------------------------------------------------------ calls
     def call_def(self, def_path, args, e=None):
@@ -691,7 +692,16 @@ class Interp:
         if k == 'Block':
             return self._block(e, fr)
         if k == 'If':
-            c = self.eval(e['cond'], fr)
+            try:
+                c = self.eval(e['cond'], fr)
+            except Unsupported as u:
+                # an assertion whose condition the scenario table cannot decide: numeric rules (which make no claim about
+                # panics) assume it passes and record that; rules about rejection / panic freedom stay strict
+                ex = e.get('expn') or []
+                if getattr(self.model, 'assume_asserts', False) and any('assert' in str(m) for m in ex) and e.get('else') is None:
+                    self.assumed_asserts.append((line_of(e), str(u.why)[:120]))
+                    return Unit()
+                raise
             if not isinstance(c, B):
                 raise Unsupported("branch condition is not decided: %r" % (c,), e['cond'])
             if c.b:
